@@ -384,19 +384,19 @@ deriving Repr, Inhabited
 def isHexCI (c : Char) : Bool :=
   ('0' ≤ c && c ≤ '9') || ('a' ≤ c && c ≤ 'f') || ('A' ≤ c && c ≤ 'F')
 
-/-- `[a-z2-7]` under `re.IGNORECASE` on `str`: besides both ASCII cases the four characters
-    whose simple case folding is an ASCII letter (U+0130 İ, U+0131 ı, U+017F ſ, U+212A K) -/
+/-- `[a-z2-7]` under `re.IGNORECASE | re.ASCII` (/repo aceb2ad): both ASCII cases and nothing else
+    (without `re.ASCII` U+0130 İ, U+0131 ı, U+017F ſ, U+212A K were folded onto ASCII letters) -/
 def isB32CI (c : Char) : Bool :=
-  ('a' ≤ c && c ≤ 'z') || ('A' ≤ c && c ≤ 'Z') || ('2' ≤ c && c ≤ '7') ||
-  c.toNat == 0x130 || c.toNat == 0x131 || c.toNat == 0x17F || c.toNat == 0x212A
+  ('a' ≤ c && c ≤ 'z') || ('A' ≤ c && c ≤ 'Z') || ('2' ≤ c && c ≤ '7')
 
-/-- `_INFOHASH_REGEX.match`: `^([0-9a-f]{40}|[a-z2-7]{32})\Z`, IGNORECASE -/
+/-- `_INFOHASH_REGEX.match`: `^([0-9a-f]{40}|[a-z2-7]{32})\Z`, IGNORECASE | ASCII -/
 def matchesInfohash (cs : List Char) : Bool :=
   (cs.length == 40 && cs.all isHexCI) || (cs.length == 32 && cs.all isB32CI)
 
-/-- a literal pattern character under IGNORECASE -/
+/-- a literal (lower-case ASCII) pattern character under IGNORECASE | ASCII: the character itself
+    or its ASCII upper case (`Char.toLower` only maps `A`–`Z`) -/
 def litCI (p c : Char) : Bool :=
-  c == p || c.toLower == p || (p == 'i' && (c.toNat == 0x130 || c.toNat == 0x131))
+  c == p || c.toLower == p
 
 def prefixCI : List Char → List Char → Option (List Char)
   | [], cs => some cs
@@ -416,18 +416,20 @@ def setXl (o : MagnetOracle) (v : String) : Except Err Int :=
   | none => .error .magnet
   | some n => if n < 1 then .error .magnet else .ok n
 
-/-- `utils.URL(v)` -/
-def mkUrl (o : MagnetOracle) (v : String) : Except Err String :=
-  if o.isUrl v then .ok v else .error .url
-
 /-- `URL.__new__`: `str(s).replace(' ', '+')` -/
 def plusSpaces (s : String) : String := String.ofList (s.toList.map fun c => if c == ' ' then '+' else c)
 
-/-- an item of `tr` / `ws`: `MonitoredList.replace` coerces every item with `URL(item)` and
-    `extend → insert` coerces the resulting `URL` object again, whose text has '+' for ' ' — so
-    `is_url` must accept both spellings (a leading space makes the second one fail) -/
-def mkUrl2 (o : MagnetOracle) (v : String) : Except Err String :=
+/-- `utils.URL(v)` (/repo ae2b587): `if not is_url(url) or not is_url(self): raise URLError` — the
+    string must be a URL as given *and* in the stored spelling with '+' for ' ' (a leading space
+    makes the second test fail) -/
+def mkUrl (o : MagnetOracle) (v : String) : Except Err String :=
   if o.isUrl v then (if o.isUrl (plusSpaces v) then .ok v else .error .url) else .error .url
+
+/-- an item of `tr` / `ws`: `MonitoredList.replace` coerces every item with `URL(item)` and
+    `extend → insert` coerces the resulting `URL` object again; the second coercion sees the '+'
+    spelling, for which both tests of `URL.__init__` coincide with the second test of the first
+    coercion — so it adds nothing since ae2b587 -/
+def mkUrl2 (o : MagnetOracle) (v : String) : Except Err String := mkUrl o v
 
 def mkUrls (o : MagnetOracle) : List String → Except Err (List String)
   | [] => .ok []
